@@ -12,7 +12,7 @@ MODEL_OP = "resampled / reordered / compound"
 RULE = ("inner WCS from the exact probe family (separable / coupled / more or fewer world than pixel axes), FITS (separable, celestial, rotated, celestial with one pixel axis sliced away) and gWCS, each optionally wrapped once already by a reordering or resampling wrapper; orders given as list / tuple / ndarray "
         "tables, 1-4 dims; resampling: integer and fractional factors, scalar or per-axis, offsets, wrong lengths; "
         "reordering: every pixel and world permutation for <= 3 axes (sampled for 4), non-permutations; compound: 2-3 "
-        "members with mappings that share, duplicate or separate pixel axes, wrong lengths, disagreeing shapes, "
+        "members with mappings that share, duplicate or separate pixel axes, wrong lengths, disagreeing shapes, pixel bounds that agree / differ at one end / at both ends on shared axes, "
         "consistent and inconsistent world inputs; pixel inputs as scalars, 1-D and N-D arrays. "
         "Non-trivial = accepted wrapper with a non-identity parameter; distinct = the whole case")
 TRUSTED = ["the inner WCS evaluated directly is the reference", "numpy broadcasting of array inputs"]
@@ -107,6 +107,8 @@ def generate(rng, tier):
             case["fix_shapes"] = rng.random() < 0.85      # make shared axes agree in length
             case["inconsistent"] = rng.random() < 0.3
             case["pixels"] = [[rng.choice([0, 1, 2, 0.5, 1.25]) for _ in range(max(mapping) + 1)] for _ in range(4)]
+            # pixel bounds of the members: none / all equal on shared axes / differing at one end / at both ends
+            case["bounds_mode"] = rng.choice([None, None, "equal", "equal", "one_end", "both_ends", "some_none"])
         yield case
 
 
@@ -299,6 +301,9 @@ def run(case):
             total = sum(m.pixel_n_dim for m in members)
             res["model_req"] = {"op": "compound", "members": [wdesc(m, True) for m in members], "mapping": mapping,
                                 "pixels": [[frac(x) for x in p] for p in case["pixels"]]}
+            if case.get("bounds_mode"):
+                res["model_req"]["bounds"] = [None if m.pixel_bounds is None else [[frac(a), frac(b)] for a, b in m.pixel_bounds] for m in members]
+                tags.append(f"bounds={case['bounds_mode']}")
             try:
                 wr, err = CompoundLowLevelWCS(*members, mapping=mapping), None
             except Exception as e:
@@ -312,9 +317,14 @@ def run(case):
             pshape = [x for m in members for x in m.pixel_shape]
             gap = any(i not in mapping for i in range(max(mapping) + 1))
             disagree = gap or any(pshape[i] != pshape[mapping.index(mapping[i])] for i in range(total))
+            if not disagree and all(m.pixel_bounds is not None for m in members):
+                pb = [tuple(b) for m in members for b in m.pixel_bounds]
+                if any(pb[i] != pb[mapping.index(mapping[i])] for i in range(total)):
+                    disagree = True
+                    tags.append("bounds-disagree")
             if disagree:
                 if err != "ValueError":
-                    fails.append(f"mapping {mapping} leaves an input unused / members disagree in shape on a shared axis but the wrapper was {err or 'accepted'}")
+                    fails.append(f"mapping {mapping} leaves an input unused / members disagree in shape or bounds on a shared axis but the wrapper was {err or 'accepted'}")
                 raise StopIteration
             if err:
                 fails.append(f"valid mapping {mapping} refused with {err}")
@@ -487,6 +497,27 @@ def _members(case):
                          extra_world=(k == "extra_world"), drop_world=(k == "drop_world"))
         w._names = [f"m{mi}{n}" for n in w._names]
         members.append(w)
+    mode = case.get("bounds_mode")
+    if mode and len(mapping) == sum(m.pixel_n_dim for m in members):
+        # flat position i (member, pixel axis) is input mapping[i]; the first axis mapped to an input sets its bounds,
+        # later users agree or differ according to the mode (the last duplicate only, so that one pair disagrees)
+        r = random.Random(case["wseed"] + 23)
+        base, flat = {}, []
+        dups = [i for i in range(len(mapping)) if mapping.index(mapping[i]) != i]
+        odd = dups[-1] if dups else None
+        for i, ix in enumerate(mapping):
+            if ix not in base:
+                lo = r.choice([-0.5, 0.5, 1.5]); base[ix] = (lo, lo + r.choice([6, 8, 10]))
+            lo, hi = base[ix]
+            if i == odd and mode == "one_end":
+                lo, hi = (lo, hi - 2) if r.random() < 0.5 else (lo + 1, hi)
+            elif i == odd and mode == "both_ends":
+                lo, hi = lo + 1, hi - 1
+            flat.append((lo, hi))
+        k = 0
+        for mi, m in enumerate(members):
+            m._bounds = None if (mode == "some_none" and mi == len(members) - 1) else [tuple(x) for x in flat[k:k + m.pixel_n_dim]]
+            k += m.pixel_n_dim
     return members
 
 
